@@ -13,7 +13,7 @@ use std::time::Instant;
 /// Worker side: run `body` under a controlled scheduler replaying `case["prefix"]`.
 /// Returns the execution record. On deadlock / horizon / divergence the record is sent by the
 /// abort handler and the worker process exits.
-pub fn run_controlled(case: &Value, horizon: u64, body: impl FnOnce() -> Value) -> Value {
+pub fn run_controlled(case: &Value, horizon: u64, body: impl FnOnce(&std::sync::Arc<Sched>) -> Value) -> Value {
     let prefix: Vec<(usize, usize)> = case["prefix"]
         .as_array()
         .map(|a| {
@@ -43,7 +43,7 @@ pub fn run_controlled(case: &Value, horizon: u64, body: impl FnOnce() -> Value) 
         iso::reply_and_exit(rec);
     }));
     sched.install();
-    let obs = body();
+    let obs = body(&sched);
     let info = sched.uninstall();
     json!({
         "choices": info.choices.iter().map(|c| json!([c.idx, c.n, c.cur_enabled])).collect::<Vec<_>>(),
